@@ -177,6 +177,54 @@ def check_stage0(case, o, route):
     return None
 
 
+CLEARS = {"clear_fc", "clear_cc", "clear_cf"}
+
+
+def edited_input(case, prev, edits):
+    """The raw data a rebuild starts from: what the previous mesh exposed, after the edits (brute force on plain lists).
+    Returned in the shape of a generated case, so that the very same restatement (check_stage0) applies to the rebuild."""
+    verts = [list(v) for v in prev["verts"]]
+    edges = [list(e) for e in (prev["edges"] or [])]
+    faces = [list(f) for f in (prev["faces"] or [])]
+    cells = [list(c) for c in (prev["cells"] or [])]
+    attrs = []
+    for a in prev["eattrs"]:
+        if a["kind"] == "dense":
+            attrs.append({"name": a["name"], "dense": True, "default": a["default"], "vals": list(a["vals"])})
+        else:
+            attrs.append({"name": a["name"], "dense": False, "default": a["default"],
+                          "set": [[k, a["vals"][k]] for k in a["keys"] if k < len(a["vals"])]})
+    for e in edits:
+        k = e[0]
+        if k == "clear_edges":
+            edges, attrs = [], []
+        elif k == "clear_faces":
+            faces = []
+        elif k == "clear_cells":
+            cells = []
+        elif k == "add_vertex":
+            verts.append(list(e[1]))
+        elif k == "add_edge":
+            edges.append(list(e[1]))
+            for a in attrs:
+                if a["dense"]:
+                    a["vals"].append(0 if a["default"] is None else a["default"])
+        elif k == "add_face":
+            faces.append(list(e[1]))
+        elif k == "add_cell":
+            cells.append(list(e[1]))
+        elif k == "set_face" and faces:
+            faces[e[1] % len(faces)] = list(e[2])
+        elif k == "set_cell" and cells:
+            cells[e[1] % len(cells)] = list(e[2])
+        elif k == "pop_face" and faces:
+            faces.pop()
+        elif k == "pop_cell" and cells:
+            cells.pop()
+    return {"verts": verts, "edges": edges, "faces": faces, "cells": cells, "eattrs": attrs, "cfg": case["cfg"],
+            "dim": case.get("dim")}
+
+
 def oracle(case, res):
     base = None
     for route in case["routes"]:
@@ -187,12 +235,22 @@ def oracle(case, res):
         m = check_stage0(case, st[0], route)
         if m:
             return (m[0], "[%s rows] %s" % (route, m[1]))
+        edits = case.get("edits") or []
         for i, s in enumerate(st[1:], 1):
-            if json.dumps(s, sort_keys=True) != json.dumps(st[0], sort_keys=True):
-                diff = [k for k in s if s.get(k) != st[0].get(k)] if "err" not in s else ["raised " + s["err"]]
+            es = edits[i - 1] if i - 1 < len(edits) else []
+            prev = st[i - 1]
+            if "err" in prev:
+                break
+            if all(e[0] in CLEARS for e in es) and json.dumps(s, sort_keys=True) != json.dumps(prev, sort_keys=True):
+                # nothing but (possibly) emptied corner containers: building again must change nothing
+                diff = [k for k in s if s.get(k) != prev.get(k)] if "err" not in s else ["raised " + s["err"]]
                 return ("rebuild/" + (diff[0] if diff else "?"),
-                        "[%s rows] building again from the built mesh (pass %d) changed %s: %s -> %s"
-                        % (route, i, diff, {k: st[0].get(k) for k in diff}, {k: s.get(k) for k in diff}))
+                        "[%s rows] building again from the built mesh (pass %d, edits %s) changed %s: %s -> %s"
+                        % (route, i, es, diff, {k: prev.get(k) for k in diff}, {k: s.get(k) for k in diff}))
+            # every rebuild: the whole property sentence, recomputed by brute force from the edited data
+            m = check_stage0(edited_input(case, prev, es), s, route)
+            if m:
+                return ("rebuild-" + m[0], "[%s rows] pass %d after edits %s: %s" % (route, i, es, m[1]))
         for q, a in zip(case.get("script", []), x["script"]):
             if a[0] == "other":
                 return ("query-type", "[%s rows] query %s answered %s" % (route, q, a[1]))
